@@ -190,7 +190,7 @@ theorem wt_connectionFailed (s : Sess) : WT s s.connectionFailed := by
   split
   · exact (((wt_setRetry s none).trans (wt_closeConn _)).trans (wt_setSt _ _)).trans (wt_connectionClosed _ _)
   · exact (wt_setRetry s _).trans (wt_setSt _ _)
-  · exact (((wt_closeConn s).trans (wt_setRetry _ _)).trans (wt_setSt _ _)).trans (wt_connectionClosed _ _)
+  · exact ((((wt_closeConn s).trans (wt_setRetry _ _)).trans (wt_setHold _ _)).trans (wt_setSt _ _)).trans (wt_connectionClosed _ _)
   · exact wt_errorClose s
   · exact wt_errorClose s
   · exact WT.refl s
